@@ -177,6 +177,15 @@ func (s *Stream) LogRequest(id string, req *http.Request) error {
 		}
 	}
 
+	if req.Body == http.NoBody {
+		// Wrapping http.NoBody would make net/http treat the request as having a
+		// body of unknown length and forward it with "Transfer-Encoding: chunked"
+		// instead of "Content-Length: 0". Emit the terminal data frame a read of
+		// the empty body would have produced and leave the body alone.
+		s.sendData(id, Request, 0, true, nil, 0)
+		return nil
+	}
+
 	req.Body = &bodyLogger{
 		s:    s,
 		id:   id,
